@@ -467,6 +467,8 @@ def id_variant(G, e0s, e1s, u0, v0, proposals):
     from gcmpy.names.network_names import NetworkNames as NN
     id0 = G.edges[e0s[0]][NN.MOTIF_IDS]
     id1 = G.edges[e1s[0]][NN.MOTIF_IDS]
+    if id0 == id1 or u0 == v0 or not proposals:
+        return -1   # the two rules coincide: no information
     crossed = fixed = True
     for p in proposals:
         f = p._new_edge[0]
@@ -478,6 +480,7 @@ def id_variant(G, e0s, e1s, u0, v0, proposals):
 
 def variant_of(votes):
     """None = undetermined (mixed / third behaviour); no accepted swap fits either variant -> 0"""
+    votes = [v for v in votes if v != -1]
     if not votes:
         return 0
     if all(v == 0 for v in votes):
@@ -563,7 +566,7 @@ def run_methods(net, tg, queries):
                     props.append([min(a, b), max(a, b), net["names"].index(t) if t in net["names"] else 97,
                                   p._motif_id, a])
                 item["props"] = props
-                if dec:
+                if rec.ri and c0 and c1:
                     item["variant"] = id_variant(G, c0, c1, u0, v0, mc._proposal_edges)
             except BaseException as e:  # noqa: BLE001
                 if type(e).__name__ == "ImplTimeout":
